@@ -45,6 +45,7 @@ type Contract struct {
 	Logical  [][2]string // logical (universally quantified) variables of the contract: name, type
 	Dyns     [][2]string // dynamic-type bindings at entry: access path, type (may mention $K)
 	Foreach  []string    // the function is verified once per listed type, bound to $K
+	PruneReturns bool // prune returns: a return path whose error result is not literally nil gets one longer refutation attempt before its postconditions are generated
 	Prune    bool        // follow only feasible branches (solver check at each symbolic branch)
 	ElemPtrs bool   // pointers to slice elements are terms; type tests on symbolic dynamic types are decided by refutation
 	Timeout  int    // solver timeout (s) for this function's obligations when larger than the tier's
@@ -274,6 +275,9 @@ func (e *Engine) loadContracts(dir string, pkg *types.Package) error {
 			cur.NoLockLedger = true
 		case "prune":
 			cur.Prune = true
+			if strings.TrimSpace(rest) == "returns" {
+				cur.PruneReturns = true
+			}
 		case "elemptrs":
 			cur.ElemPtrs = true
 		case "timeout":
